@@ -181,3 +181,50 @@ def gauss_hermite_nd(mu, Sig, n):
     Ws = np.meshgrid(*([w] * D), indexing="ij")
     W = np.prod(np.stack([g.ravel() for g in Ws], -1), -1)
     return mu[None] + Z @ L.T, W
+
+
+# ----------------------------------------------------------------------------- Gaussian-form kernels (feature models)
+def kernel_forms(p):
+    """(K_i, kappa_i, c_i) with k_i(x) = exp(-x'K_i x/2 + kappa_i'x + c_i), from the DOCUMENTED kernels:
+    LRBF  k_i = exp(-sum_d ((x_d - s_id)/l_id)^2 / 2);   LSEM  k_i = exp(-(w_i'x + w_i0)^2 / 2)."""
+    out = []
+    if p["kind"] == "lrbf":
+        s_, l_ = A(p["mu"]), A(p["length_scale"])
+        for i in range(s_.shape[0]):
+            out.append((np.diag(1.0 / l_[i] ** 2), s_[i] / l_[i] ** 2, -0.5 * np.sum((s_[i] / l_[i]) ** 2)))
+    else:
+        W = A(p["W"])
+        for i in range(W.shape[0]):
+            w, w0 = W[i, 1:], W[i, 0]
+            out.append((np.outer(w, w), -w0 * w, -0.5 * w0**2))
+    return out
+
+
+def _gauss_kernel_expect(mu, Sig, K, kappa, c):
+    """E_{N(mu,Sig)}[exp(-x'Kx/2 + kappa'x + c)] and E[x * same] in closed form."""
+    D = mu.shape[0]
+    Lam = inv_spd(Sig[None])[0]
+    P = Lam + K
+    P = 0.5 * (P + P.T)
+    eta = Lam @ mu + kappa
+    Pi = inv_spd(P[None])[0]
+    m = Pi @ eta
+    ld = np.linalg.slogdet(np.eye(D) + Sig @ K)[1]
+    lnZ = c - 0.5 * ld + 0.5 * eta @ m - 0.5 * mu @ Lam @ mu
+    return np.exp(lnZ), np.exp(lnZ) * m
+
+
+def kernel_moments(mu, Sig, forms):
+    """E[k] [Dk], E[k x'] [Dk,Dx], E[k k'] [Dk,Dk] under N(mu,Sig)."""
+    Dk = len(forms)
+    Ek = np.zeros(Dk)
+    Ekx = np.zeros((Dk, mu.shape[0]))
+    Ekk = np.zeros((Dk, Dk))
+    for i, (K, ka, c) in enumerate(forms):
+        Ek[i], Ekx[i] = _gauss_kernel_expect(mu, Sig, K, ka, c)
+        for j, (K2, ka2, c2) in enumerate(forms):
+            if j < i:
+                Ekk[i, j] = Ekk[j, i]
+            else:
+                Ekk[i, j] = _gauss_kernel_expect(mu, Sig, K + K2, ka + ka2, c + c2)[0]
+    return Ek, Ekx, Ekk
